@@ -31,6 +31,11 @@ theorem setChan_rest (ms : MsgSt) (c : Ch) (v : Option (List Rec)) :
     (ms.setChan c v).placedLoc = ms.placedLoc ∧ (ms.setChan c v).placedRem = ms.placedRem := by
   cases c <;> simp [MsgSt.setChan]
 
+/-- … and the per-record exemption lists and the message file flag -/
+theorem setChan_rest2 (ms : MsgSt) (c : Ch) (v : Option (List Rec)) :
+    (ms.setChan c v).droppedRecs = ms.droppedRecs ∧ (ms.setChan c v).lostRecs = ms.lostRecs ∧ (ms.setChan c v).mess = ms.mess := by
+  cases c <;> simp [MsgSt.setChan]
+
 theorem setChanSynced_rest (ms : MsgSt) (c : Ch) (v : Bool) :
     (ms.setChanSynced c v).todo = ms.todo ∧ (ms.setChanSynced c v).info = ms.info ∧ (ms.setChanSynced c v).bounce = ms.bounce ∧
     (ms.setChanSynced c v).fin = ms.fin ∧ (ms.setChanSynced c v).delivered = ms.delivered ∧ (ms.setChanSynced c v).noted = ms.noted ∧
@@ -88,13 +93,20 @@ structure MInv (cfg : Cfg) (ms : MsgSt) : Prop where
   k2 : ms.todo = none → ∀ c rs i, ms.chan c = some rs → (rs.getD i ⟨false, []⟩).done = true → i < rs.length → (c, i) ∈ ms.fin
   /-- finished = reported delivered, or bounce paragraph appended -/
   k3 : ∀ x ∈ ms.fin, x ∈ ms.delivered ∨ x ∈ ms.noted
-  /-- fate of a bounce paragraph: still in bounce/<m>, or in a queued bounce, or documented exemption -/
-  k4 : ∀ x ∈ ms.noted, x ∈ ms.inFile ∨ x ∈ ms.bounced ∨ ms.discarded = true ∨ ms.lost = true
+  /-- fate of a bounce paragraph: still in bounce/<m>, or in a queued bounce, or one of the two documented exemptions —
+  *for this very paragraph*: it was in the file of a `#@[]` message when that was discarded, or in the file when a crash damaged it -/
+  k4 : ∀ x ∈ ms.noted, x ∈ ms.inFile ∨ x ∈ ms.bounced ∨ x ∈ ms.droppedRecs ∨ x ∈ ms.lostRecs
   k5 : ms.bounce = none → ms.inFile = []
   /-- info/<m> outlives the channel files and the bounce file -/
   k6 : ms.todo = none → (ms.loc.isSome ∨ ms.rem.isSome ∨ ms.bounce.isSome) → ms.info.isSome
   /-- a channel file disappears only when everything in it is finished -/
   k7 : ms.todo = none → ∀ c, ms.chan c = none → ∀ i, i < (MsgSt.placed ms c).length → (c, i) ∈ ms.fin
+  /-- after preprocessing `info/<m>` holds exactly the accepted envelope sender (`F` sender NUL) -/
+  i1 : ms.todo = none → ∀ sd r i, ms.accepted = some (sd, r) → ms.info = some i → i = 70 :: sd ++ [0]
+  /-- the message file `mess/<m>` outlives `todo/<m>` and `info/<m>` -/
+  m1 : (ms.todo.isSome ∨ ms.info.isSome) → ms.mess = true
+  /-- bounce paragraphs are discarded only for a message whose envelope sender is `#@[]` -/
+  d1 : ∀ sd r, ms.accepted = some (sd, r) → ms.droppedRecs ≠ [] → sd = [35, 64, 91, 93]
 
 theorem minv_default (cfg : Cfg) : MInv cfg {} := by
   constructor
@@ -107,10 +119,13 @@ theorem minv_default (cfg : Cfg) : MInv cfg {} := by
   · intro _; rfl
   · intro _ h; simp at h
   · intro _ c _ i h; cases c <;> simp [MsgSt.placed] at h
+  · intro _ sd r i h; simp at h
+  · intro h; simp at h
+  · intro sd r h; simp at h
 
 /-- the facts a pending `todo/<m>` clean request was granted on -/
 def TodoReady (cfg : Cfg) (ms : MsgSt) : Prop :=
-  ∃ sender rcpts, ms.todo = some (sender, rcpts) ∧ ms.info.isSome ∧
+  ∃ sender rcpts, ms.todo = some (sender, rcpts) ∧ ms.info = some (70 :: sender ++ [0]) ∧
     (∀ c rs, ms.chan c = some rs → allT rs = true) ∧
     routedOk cfg rcpts (optAddrs ms.loc) (optAddrs ms.rem) = true
 
@@ -121,12 +136,15 @@ structure Inv (cfg : Cfg) (s : St) : Prop where
   may : ∀ m c i, (m, c, i) ∈ s.mayMark → (c, i) ∈ (s.msg m).fin
   /-- a granted `todo/<m>` request refers to a completely preprocessed message -/
   ready : ∀ m, s.clean = some (.todo m) → TodoReady cfg (s.msg m)
+  /-- a granted `foop/<m>` request refers to a message without `todo/<m>` and `info/<m>` -/
+  foop : ∀ m, s.clean = some (.foop m) → (s.msg m).todo = none ∧ (s.msg m).info = none
 
 theorem inv_init (cfg : Cfg) : Inv cfg {} := by
-  refine ⟨fun k => ?_, ?_, ?_⟩
+  refine ⟨fun k => ?_, ?_, ?_, ?_⟩
   · have : (({} : St).msg k) = {} := by simp [St.msg, tabGet]
     rw [this]; exact minv_default cfg
   · intro m c i h; simp at h
+  · intro m h; simp at h
   · intro m h; simp at h
 
 /-- updating one message: the others are untouched -/
@@ -134,8 +152,9 @@ theorem inv_upd (cfg : Cfg) (s : St) (m : Nat) (f : MsgSt → MsgSt) (s' : St)
     (hmsg : ∀ k, s'.msg k = if k = m then f (s.msg m) else s.msg k)
     (hinv : Inv cfg s) (hm : MInv cfg (f (s.msg m)))
     (hmay : ∀ m' c i, (m', c, i) ∈ s'.mayMark → (c, i) ∈ (s'.msg m').fin)
-    (hready : ∀ m', s'.clean = some (.todo m') → TodoReady cfg (s'.msg m')) : Inv cfg s' := by
-  refine ⟨fun k => ?_, hmay, hready⟩
+    (hready : ∀ m', s'.clean = some (.todo m') → TodoReady cfg (s'.msg m'))
+    (hfoop : ∀ m', s'.clean = some (.foop m') → (s'.msg m').todo = none ∧ (s'.msg m').info = none) : Inv cfg s' := by
+  refine ⟨fun k => ?_, hmay, hready, hfoop⟩
   rw [hmsg k]
   split
   · exact hm
